@@ -53,6 +53,8 @@ def judge_stream(c, src, seq, pre_stream, pre_covered, emitted, bad):
             for k, val in exp.items():
                 if d[k] != val:
                     bad("C07.metadata", f"Metadata field {k} = {d[k]!r}, expected {val!r}", field=k)
+        elif c["md_only"] and t in ("FD", "EOF"):
+            bad("C07.order", f"{t} PDU emitted for a metadata-only request", T=t)
         elif t == "FD":
             nfd += 1
             ln = len(d["data"]) // 2
